@@ -141,7 +141,10 @@ Fixpoint single_loop (fuel : nat) (args : list str) (tok : str) (result : str) :
         let sub : xres str :=
           if str_eqb k [c_at] then
             match args with [] => XPanic | _ :: r => XOk (join_sp r) end
-          else XOk (nth (N.to_nat (digits_val k 0)) args []) in
+          else (* parse::<usize>() then [arg_idx < args.len()]; compared in N so that a huge index
+                   (also one that overflows usize: Err, same outcome) never becomes a unary number *)
+               let ix := digits_val k 0 in
+               if ix <? N.of_nat (length args) then XOk (nth (N.to_nat ix) args []) else XOk [] in
         match sub with
         | XOk v => if is_empty t then XOk (result ++ h ++ v) else single_loop f args t (result ++ h ++ v)
         | XPanic => XPanic
